@@ -12,6 +12,7 @@ import random
 import shutil
 import signal
 import subprocess
+import threading
 import time
 
 from build import S4BIN, PRELOAD, VERIF
@@ -387,15 +388,30 @@ def execute(scn, plan, keep=False, wall_cap=30.0, binary=None, want_trace=True):
         se = open(os.path.join(meta, "stderr"), "wb")
         t0 = time.time()
         try:
-            p = subprocess.Popen([binary or S4BIN] + list(scn.argv), cwd=wd, env=env,
-                                 stdin=subprocess.PIPE if scn.stdin is not None else subprocess.DEVNULL,
-                                 stdout=so, stderr=se)
-            try:
-                p.communicate(input=scn.stdin, timeout=wall_cap)
-            except subprocess.TimeoutExpired:
+            if scn.stdin is not None:
+                with open(os.path.join(meta, "stdin"), "wb") as fh:
+                    fh.write(scn.stdin)
+                si = open(os.path.join(meta, "stdin"), "rb")
+            else:
+                si = subprocess.DEVNULL
+            p = subprocess.Popen([binary or S4BIN] + list(scn.argv), cwd=wd, env=env, stdin=si, stdout=so, stderr=se)
+            if si is not subprocess.DEVNULL:
+                si.close()
+
+            # blocking waitpid + watchdog (subprocess' own timeout polls with sleeps of up to 50 ms)
+            def _kill():
                 res.timed_out = True
-                p.send_signal(signal.SIGKILL)
-                p.communicate()
+                try:
+                    p.send_signal(signal.SIGKILL)
+                except ProcessLookupError:
+                    pass
+            wd_timer = threading.Timer(wall_cap, _kill)
+            wd_timer.daemon = True
+            wd_timer.start()
+            try:
+                p.wait()
+            finally:
+                wd_timer.cancel()
             res.rc = p.returncode
         finally:
             so.close()
